@@ -4,6 +4,10 @@ from .model import Tree, ModelInvalid
 from .core import ok, violation, invalid
 
 
+import os
+VERBOSE = int(os.environ.get("VERIF_VERBOSE", "0") or 0)
+
+
 class Stop(Exception):
     """Raised by hooks to end the run with a verdict."""
 
@@ -76,7 +80,12 @@ class HistoryRun:
     # ---- execution
     def do_step(self, who):
         self.before_step(who)
+        n0 = len(self.case.calls)
         self.case.step(who)
+        if VERBOSE:
+            calls = [(c["side"], c["name"], c["path"], c["dst"], c["err"], c.get("fault")) for c in self.case.calls[n0:]
+                     if VERBOSE > 1 or c["name"] in ("create", "upload", "rename", "delete", "mkdir", "download") or c["err"]]
+            print("   %s %s" % (who, calls))
         self.stats["steps"] += 1
         self._step_since_op = True
         self.after_step(who)
@@ -132,6 +141,13 @@ class HistoryRun:
             last_settle = max([i for i, a in enumerate(acts) if a[0] == "settle"] or [-1])
             for i, a in enumerate(acts):
                 k = a[0]
+                if VERBOSE:
+                    print(">>", a)
+                    if k == "settle" or VERBOSE > 1:
+                        print("   L:", {p: (v if v is None else v[:8]) for p, v in sorted(self.case.snap(0).items())})
+                        print("   R:", {p: (v if v is None else v[:8]) for p, v in sorted(self.case.snap(1).items())})
+                        if self.case.cs is not None:
+                            print(self.case.cs.state.pretty_print(use_sigs=False))
                 if k == "u":
                     self.do_user(a)
                 elif k == "step":
